@@ -724,7 +724,9 @@ def _(e, c, a):
     if len(src.cells) < 4: return Err(Opaque('io::Error', 'zstd: not a frame'))
     ok = zand([veq(src.cells[i].v, ZSTD_MAGIC[i]) for i in range(4)])
     if not (e.branch(ok) if is_sym(ok) else ok): return Err(Opaque('io::Error', 'zstd: not a frame'))
-    if e.choose(2, 'zstd: decompressed size exceeds the capacity') == 1:
+    # a capacity of at least Redis' largest possible value (proto-max-bulk-len, 512 MiB) always suffices
+    cap = un(a[1])
+    if not (isinstance(cap, int) and cap >= (512 << 20)) and e.choose(2, 'zstd: decompressed size exceeds the capacity') == 1:
         e.events.append(('zstd-capacity-exceeded', a[1]))
         return Err(Opaque('io::Error', 'zstd: destination buffer is too small'))
     return Ok(RVec([Cell(x.v) for x in src.cells[4:]]))
